@@ -44,9 +44,9 @@ theorem xpack_ipv6_udp_valid (cfg : XCfg) (e : Eth) (h : IPv6) (u : Udp) (b : By
   obtain ⟨f1, f2, f3⟩ := ipv6_wire_fields h (b.length + 8) hf
   refine ⟨ipv6Bytes h (b.length + 8), udpPre u b.length ++ be16 (udp6CsumSpec h.src h.dst h.nh u b) ++ b, ?_,
     ipv6Bytes_length h _ hf, ?_, ?_, ?_⟩
-  · have hr : ((udpPre u b.length ++ be16 (udp6CsumSpec h.src h.dst h.nh u b)) ++ b).length = b.length + 8 := hseg
-    simp [xpack, xpackU, udpHdr6_ok h.src h.dst h.nh u b hf.src hf.dst hf.nh hu hn, hr, ipv6Hdr_ok h (b.length + 8) hf hn,
-      ethHdr_ok e he, bind, Except.bind, pure, Except.pure, List.append_assoc]
+  · simp only [xpack, xpackU, udpHdr6_ok h.src h.dst h.nh u b hf.src hf.dst hf.nh hu hn, bind, Except.bind, pure, Except.pure]
+    rw [hseg]
+    simp only [ipv6Hdr_ok h (b.length + 8) hf hn, ethHdr_ok e he]
   · rw [ipv6_len_field h _ hn, hseg]
   · have : sl (udpPre u b.length ++ be16 (udp6CsumSpec h.src h.dst h.nh u b) ++ b) 4 6 = be16 (b.length + 8) := by
       unfold udpPre
@@ -64,7 +64,7 @@ theorem xpack_ipv6_udp_valid (cfg : XCfg) (e : Eth) (h : IPv6) (u : Udp) (b : By
       simp only [List.append_assoc, List.cons_append, List.nil_append]
       exact zeroWord_at 3 _ _ _ _ (by rw [udpPre_length])
     have hlt : udp6CsumSpec h.src h.dst h.nh u b < 256 ^ 2 := hcs
-    rw [e1, be16, beDec_beEnc 2 _ hlt, f1, f2, f3, hz, hseg]
+    rw [e1, f1, f2, f3, hz, hseg, be16, beDec_beEnc 2 _ hlt]
     rfl
 
 /-- **ICMPv6 over IPv6, whole frame**: the checksum is over the pseudo header read from the emitted IPv6 header with
@@ -79,8 +79,9 @@ theorem xpack_ipv6_icmp6_valid (cfg : XCfg) (e : Eth) (h : IPv6) (i : Icmp) (b :
   have hseg : (icmp6Bytes h.src h.dst i b ++ b).length = b.length + 4 := by simp [icmp6Bytes, hpl]; omega
   obtain ⟨f1, f2, _⟩ := ipv6_wire_fields h (b.length + 4) hf
   refine ⟨ipv6Bytes h (b.length + 4), icmp6Bytes h.src h.dst i b ++ b, ?_, ipv6Bytes_length h _ hf, ?_, ?_⟩
-  · simp [xpack, xpackU, icmp6Hdr_ok h.src h.dst i b hf.src hf.dst hi (by omega), hseg, ipv6Hdr_ok h (b.length + 4) hf hn,
-      ethHdr_ok e he, bind, Except.bind, pure, Except.pure, List.append_assoc]
+  · simp only [xpack, xpackU, icmp6Hdr_ok h.src h.dst i b hf.src hf.dst hi (by omega), bind, Except.bind, pure, Except.pure]
+    rw [hseg]
+    simp only [ipv6Hdr_ok h (b.length + 4) hf hn, ethHdr_ok e he]
   · rw [ipv6_len_field h _ hn, hseg]
   · have e1 : sl (icmp6Bytes h.src h.dst i b ++ b) 2 4 = be16 (icmp6CsumSpec h.src h.dst i b) := by
       unfold icmp6Bytes; rw [List.append_assoc]
@@ -91,7 +92,7 @@ theorem xpack_ipv6_icmp6_valid (cfg : XCfg) (e : Eth) (h : IPv6) (i : Icmp) (b :
       simp only [List.append_assoc, List.cons_append, List.nil_append]
       exact zeroWord_at 1 _ _ _ _ (by rw [hpl])
     have hlt : icmp6CsumSpec h.src h.dst i b < 256 ^ 2 := hcs
-    rw [e1, be16, beDec_beEnc 2 _ hlt, f1, f2, hz, hseg]
+    rw [e1, f1, f2, hz, hseg, be16, beDec_beEnc 2 _ hlt]
     rfl
 
 end Pox.Packet
